@@ -91,10 +91,14 @@ func VPH_C13_redirect() {
 	vp.Assert(got.Host == wantHost, "host")
 	vp.Assert(got.Path == wantPath, "path-is-request-path-after-strip-prepend")
 	vp.Assert(got.RawQuery == wantQuery, "query-inherited-only-when-target-has-none")
-	if shape != 0 && req.RawPath != "" && t.StripPath == "" {
+	if shape != 0 && req.RawPath != "" && (t.StripPath == "" || (strings.HasPrefix(req.Path, t.StripPath) && strings.HasPrefix(req.RawPath, t.StripPath))) {
 		// the client sent a non-default percent-encoding (net/http sets RawPath only then):
 		// the Location must carry it, otherwise e.g. %2F is decoded to '/'
+		// (with strip= the prefix is removed from both forms when both carry it)
 		vp.Cover("client-encoding")
+		if t.StripPath != "" {
+			vp.Cover("client-encoding-under-strip")
+		}
 		vp.Assert(got.RawPath == wantRaw, "escaped-path-kept")
 	}
 }
